@@ -344,8 +344,12 @@ def judge(V, case, trace, info):
             facts.add("queued_calls_released")
     # 5. nothing after a deliberate close
     if info.get("closed_at_failure"):
-        if rr:
-            bad.append(("C10/close/reset-requested-after-deliberate-close", f"{kind} after close() produced {rr[0]}"))
+        # only what happens after the close is the close's doing: with the NCP silenced ahead of a timer-aligned
+        # failure the host may, depending on how its timeouts are tuned, have run out of ASH attempts and asked for a
+        # reset on its own before the workload ever reached the close
+        rr_after = [e for e in rr if dc is None or e[1] > dc + 1e-9]
+        if rr_after:
+            bad.append(("C10/close/reset-requested-after-deliberate-close", f"{kind} after close() produced {rr_after[0]}"))
         else:
             facts.add("deliberate_close_silent")
         return bad, facts
@@ -355,7 +359,14 @@ def judge(V, case, trace, info):
     observable = True
     if kind in ("silent", "naksilent"):
         # silence becomes observable when a DATA frame goes unacknowledged through the whole retry budget
-        fd = next((e for e in trace if e[0] == "line" and e[2] == "h2n" and e[3] and e[3][0] == "D" and e[1] >= tf - 0.002), None)
+        # (a frame written just before the NCP fell silent counts only if the NCP had not acknowledged it by then)
+        def unacked(e):
+            nxt = (e[3][1] + 1) % 8
+            return not any(a[0] == "line" and a[2] == "n2h" and a[3] and a[1] >= e[1] and
+                           ((a[3][0] == "A" and a[3][1] == nxt) or (a[3][0] == "D" and a[3][3] == nxt)) for a in trace)
+
+        fd = next((e for e in trace if e[0] == "line" and e[2] == "h2n" and e[3] and e[3][0] == "D" and e[1] >= tf - 0.002
+                   and unacked(e)), None)
         observable = fd is not None and (dc is None or dc >= fd[1] + B["ash"] + 0.01)
     if observable:
         if not rr:
